@@ -16,30 +16,7 @@ import aggrun as R
 SLACK = {"f64": 1e-9, "f32": 1e-3}   # rounding slack, in units of s^2 (measured: 1.7e-15 in f64)
 
 
-def minnorm_exact(G):
-    """min alpha^T G alpha over the simplex, exactly (support enumeration); returns the value"""
-    m = len(G)
-    best = None
-    for r in range(1, m + 1):
-        for S in itertools.combinations(range(m), r):
-            # [G_SS -1; 1^T 0] [a; lam] = [0; 1]
-            K = [[G[i][j] for j in S] + [F(-1)] for i in S] + [[F(1)] * r + [F(0)]]
-            sol = A.solve_exact(K, [F(0)] * r + [F(1)])
-            if sol is None:
-                continue
-            a, lam = sol[:r], sol[r]
-            if any(x < 0 for x in a):
-                continue
-            alpha = [F(0)] * m
-            for i, x in zip(S, a):
-                alpha[i] = x
-            Ga = A.matvec(G, alpha)
-            if all(Ga[j] >= lam for j in range(m)):
-                return lam          # = alpha^T G alpha
-            if best is None or lam < best:
-                pass
-    # fallback: vertices
-    return min(G[i][i] for i in range(m))
+minnorm_exact = A.minnorm_exact
 
 
 def oracle(chk, c, dt, found):
